@@ -363,7 +363,7 @@ impl Property for C06 {
     }
     fn runs(&self, tier: Tier) -> u64 {
         match tier {
-            Tier::Quick => 500,
+            Tier::Quick => 1_500,
             Tier::Thorough => 100_000,
         }
     }
